@@ -67,7 +67,8 @@ var (
 	c01BtSets     []c01BtSet
 	c01SigPuts    []c01SigPut
 	c01SigExists  []solana.Signature
-	c01Sealed     = map[string]int{}
+	// one cell per index (the sealing closures run concurrently; no shared cell between them)
+	c01Sealed = map[string]*int{"cid_to_offset_and_size": new(int), "slot_to_cid": new(int), "sig_to_cid": new(int), "sig_exists": new(int), "slot_to_blocktime": new(int)}
 	c01PutAfterOK bool // a sink was written after its Seal (would be lost)
 	c01CidW       *indexes.CidToOffsetAndSize_Writer
 	c01SlotW      *indexes.SlotToCid_Writer
@@ -208,7 +209,7 @@ func NewBuilder_SignatureToCid(epoch uint64, rootCid cid.Cid, network indexes.Ne
 // sinks
 func c01Model_CidToOffsetPut(w *indexes.CidToOffsetAndSize_Writer, c cid.Cid, offset uint64, size uint64) error {
 	verifAssert(w == c01CidW, "C01.offsets: Put on a foreign writer")
-	if c01Sealed["cid_to_offset_and_size"] > 0 {
+	if *c01Sealed["cid_to_offset_and_size"] > 0 {
 		c01PutAfterOK = true
 	}
 	if c01FailHere(fmt.Sprintf("cid_to_offset.Put:%d", len(c01CidPuts))) {
@@ -220,7 +221,7 @@ func c01Model_CidToOffsetPut(w *indexes.CidToOffsetAndSize_Writer, c cid.Cid, of
 
 func c01Model_SlotToCidPut(w *indexes.SlotToCid_Writer, slot uint64, c cid.Cid) error {
 	verifAssert(w == c01SlotW, "C01.offsets: Put on a foreign writer")
-	if c01Sealed["slot_to_cid"] > 0 {
+	if *c01Sealed["slot_to_cid"] > 0 {
 		c01PutAfterOK = true
 	}
 	if c01FailHere(fmt.Sprintf("slot_to_cid.Put:%d", len(c01SlotPuts))) {
@@ -232,7 +233,7 @@ func c01Model_SlotToCidPut(w *indexes.SlotToCid_Writer, slot uint64, c cid.Cid) 
 
 func c01Model_SigToCidPut(w *indexes.SigToCid_Writer, sig solana.Signature, c cid.Cid) error {
 	verifAssert(w == c01SigW, "C01.offsets: Put on a foreign writer")
-	if c01Sealed["sig_to_cid"] > 0 {
+	if *c01Sealed["sig_to_cid"] > 0 {
 		c01PutAfterOK = true
 	}
 	if c01FailHere(fmt.Sprintf("sig_to_cid.Put:%d", len(c01SigPuts))) {
@@ -246,7 +247,7 @@ func c01Seal(name string) error {
 	if c01FailHere("Seal:" + name) {
 		return c01Err("Seal:" + name)
 	}
-	c01Sealed[name]++
+	*c01Sealed[name]++
 	return nil
 }
 
@@ -278,7 +279,7 @@ func c01Model_bucketteerNewWriter(path string) (*bucketteer.Writer, error) {
 
 func c01Model_bucketteerPut(w *bucketteer.Writer, sig [64]byte) {
 	verifAssert(w == c01SigExistsW, "C01.offsets: Put on a foreign writer")
-	if c01Sealed["sig_exists"] > 0 {
+	if *c01Sealed["sig_exists"] > 0 {
 		c01PutAfterOK = true
 	}
 	c01SigExists = append(c01SigExists, solana.Signature(sig))
@@ -300,7 +301,7 @@ func c01Model_blocktimeNewForEpoch(epoch uint64) *blocktimeindex.Index {
 
 func c01Model_blocktimeSet(idx *blocktimeindex.Index, slot uint64, t int64) error {
 	verifAssert(idx == c01BtIndex, "C01.offsets: Set on a foreign index")
-	if c01Sealed["slot_to_blocktime"] > 0 {
+	if *c01Sealed["slot_to_blocktime"] > 0 {
 		c01PutAfterOK = true
 	}
 	if c01FailHere(fmt.Sprintf("blocktime.Set:%d", len(c01BtSets))) {
@@ -349,7 +350,12 @@ func VerifC01Offsets() {
 	c01H = verifU64("headerSize")
 	c01EpochN = verifU64("epoch")
 	for i := 0; i < k; i++ {
-		s := c01Sec{cid: c01Cid(i), length: verifU64("sectionLength"), kind: c01Kinds[verifChoice("kind", len(c01Kinds))]}
+		s := c01Sec{cid: c01Cid(i), length: verifU64("sectionLength")}
+		if verifParam("fixedKinds", 0) == 1 {
+			s.kind = c01Kinds[i%len(c01Kinds)]
+		} else {
+			s.kind = c01Kinds[verifChoice("kind", len(c01Kinds))]
+		}
 		switch s.kind {
 		case iplddecoders.KindBlock:
 			s.slot, s.blocktime = verifU64("slot"), verifI64("blocktime")
@@ -358,12 +364,18 @@ func VerifC01Offsets() {
 		}
 		c01Secs = append(c01Secs, s)
 	}
-	if verifParam("failures", 1) == 1 {
+	if verifParam("failures", 1) != 0 {
 		sites := c01Sites()
+		if n := verifParam("failures", 1); n > 1 {
+			sites = sites[len(sites)-5:][:n-1] // only the first n-1 sealing steps (C01.seal*)
+		}
 		if f := verifChoice("failingSite", len(sites)+1); f > 0 {
 			c01Fail = sites[f-1]
 		}
 	}
+	// the sealing closures of the pinned tree share the captured variable err (see C01.sealmask)
+	verifKnownFinding("C01-seal-shared-err", verifParam("sharedErrRegion", 0) == 1 &&
+		(c01Fail == "Seal:cid_to_offset_and_size" || c01Fail == "Seal:slot_to_cid" || c01Fail == "Seal:sig_to_cid" || c01Fail == "Seal:sig_exists" || verifParam("raceCheck", 0) == 1))
 	carPath := verifTempPath("epoch.car")
 	verifMemFile(carPath, []byte{0}) // existence only; the reader is a model
 	paths, numTotal, err := createAllIndexes(context.Background(), indexes.NetworkMainnet, verifTempPath("tmp"), carPath, "/memfs/idx")
@@ -407,12 +419,18 @@ func VerifC01Offsets() {
 	verifAssert(len(c01SlotPuts) == nb && len(c01BtSets) == nb && len(c01SigPuts) == nt && len(c01SigExists) == nt, "C01.offsets: entries recorded for sections that are neither blocks nor transactions")
 	// every index is sealed exactly once, after its last entry, and its path is reported
 	for _, n := range []string{"cid_to_offset_and_size", "slot_to_cid", "sig_to_cid", "sig_exists", "slot_to_blocktime"} {
-		verifAssert(c01Sealed[n] == 1, "C01.offsets: success reported but an index was not sealed exactly once")
+		verifAssert(*c01Sealed[n] == 1, "C01.offsets: success reported but an index was not sealed exactly once")
 	}
 	verifAssert(!c01PutAfterOK, "C01.offsets: an entry was written after its index was sealed")
 	verifAssert(paths != nil && paths.CidToOffsetAndSize == "/memfs/idx/cid-to-offset-and-size.index" && paths.SlotToCid == "/memfs/idx/slot-to-cid.index" &&
 		paths.SignatureToCid == "/memfs/idx/sig-to-cid.index" && paths.SignatureExists != "" && paths.SlotToBlocktime == "/memfs/idx/slot-to-blocktime.index",
 		"C01.offsets: reported index paths are not the sealed files")
 	_ = errors.Is
+	verifC01YieldShared()
 	verifReach("end")
 }
+
+// verifC01YieldShared is a scheduling point on one shared object (engine intrinsic, ext_C01.go):
+// all such points are mutually dependent, so every order of the code sections they delimit is
+// explored. Natively it does nothing.
+func verifC01YieldShared() {}
